@@ -1,12 +1,14 @@
 #!/bin/sh
-# re-runs every kept seeded change against the check of its own property; summary -> seeded/REGRESSION.txt
+# re-runs kept seeded changes against the check of their own property; summary -> seeded/REGRESSION.txt
+# usage: tools/seed_regress.sh [pattern (default C)] [parallel lanes (default 3)]
 cd "$(dirname "$0")/.." || exit 2
+pat=${1:-C}; lanes=${2:-3}
 out=seeded/REGRESSION.txt
+ls -d seeded/${pat}*/ | xargs -n1 basename | xargs -P $lanes -I{} sh -c 'p=$(echo {} | cut -c1-3); tools/seed_detect.sh {} $p > /dev/null 2>&1'
 : > $out.tmp
 for d in seeded/C*/; do
   name=$(basename $d)
   prop=$(echo $name | cut -c1-3)
-  tools/seed_detect.sh $name $prop > /dev/null 2>&1
   line=$(grep "^== $prop" seeded/$name/detection.txt | head -1 | cut -c1-120)
   first=$(grep REJECTED seeded/$name/detection.txt | head -1 | sed 's/^ *//' | cut -c1-160)
   echo "$name | $line | $first" >> $out.tmp
